@@ -6,18 +6,10 @@ use serde_json::json;
 use std::collections::BTreeMap;
 use wgslgen::{Member, Scalar, Ty};
 
-/// Extra programs beyond C05's space: IO structs with builtins interleaved, runtime arrays, bools.
-pub fn extra_space() -> Vec<StructProg> {
-    let mut out = struct_space(false, false, false, true);
-    out.retain(|p| p.key.starts_with("rt"));
-    let f = Scalar::F32;
-    // private / workgroup structs with bool members
-    for space in ["private", "workgroup"] {
-        out.push(make_prog(vec![Member::plain("flag", Ty::Scalar(Scalar::Bool)), Member::plain("v", Ty::Vec(3, f))], space, format!("bool|{space}|scalar")));
-        out.push(make_prog(vec![Member::plain("v", Ty::Vec(2, Scalar::Bool)), Member::plain("w", Ty::Array(Box::new(Ty::Scalar(Scalar::Bool)), 3))], space, format!("bool|{space}|vec-array")));
-    }
-    // 64-bit integer members (naga accepts them; the unchanged generator refuses them - if a tree emits them,
-    // kind / width / counts are checked like every other member)
+/// 64-bit integer members (naga accepts them; the unchanged generator refuses them - if a tree emits them,
+/// kind / width / counts / layout are checked like every other member).
+pub fn int64_space() -> Vec<StructProg> {
+    let mut out = vec![];
     for s64 in [Scalar::I64, Scalar::U64] {
         let shapes: Vec<(String, Ty)> = vec![
             ("scalar".into(), Ty::Scalar(s64)),
@@ -34,6 +26,20 @@ pub fn extra_space() -> Vec<StructProg> {
             out.push(make_prog(members, "storage", format!("int64|{}|{label}", s64.wgsl())));
         }
     }
+    out
+}
+
+/// Extra programs beyond C05's space: IO structs with builtins interleaved, runtime arrays, bools.
+pub fn extra_space() -> Vec<StructProg> {
+    let mut out = struct_space(false, false, false, true);
+    out.retain(|p| p.key.starts_with("rt"));
+    let f = Scalar::F32;
+    // private / workgroup structs with bool members
+    for space in ["private", "workgroup"] {
+        out.push(make_prog(vec![Member::plain("flag", Ty::Scalar(Scalar::Bool)), Member::plain("v", Ty::Vec(3, f))], space, format!("bool|{space}|scalar")));
+        out.push(make_prog(vec![Member::plain("v", Ty::Vec(2, Scalar::Bool)), Member::plain("w", Ty::Array(Box::new(Ty::Scalar(Scalar::Bool)), 3))], space, format!("bool|{space}|vec-array")));
+    }
+    out.extend(int64_space());
     // vertex / fragment input structs with builtins at every position
     let attr_types = [Ty::Scalar(f), Ty::Vec(2, f), Ty::Vec(3, f), Ty::Vec(4, f), Ty::Scalar(Scalar::U32), Ty::Vec(2, Scalar::I32), Ty::Vec(4, Scalar::U32), Ty::Vec(3, Scalar::F64)];
     for (i, a) in attr_types.iter().enumerate() {
